@@ -189,6 +189,16 @@ CLAIMED['C17'] = dict(
     technique='TLA+ exact-rational state machines + TLC enumeration; spec->code replay; differential oracle (optax by hand) for adam-like tx',
     design_ref='3/C17')
 
+CLAIMED['C18'] = dict(
+    text=('Bridge.tla: Linen variables <-> ToNNX attribute trees (one attribute per top-level name, all collections below it), conversion '
+          'round trip, and histories of wrapper calls with or without mutable batch_stats on layer trees up to depth 3; invariant: the '
+          'wrapper\'s state always equals what applying the wrapped module on its variables leaves (TLC refutes the shallow merge of the '
+          'pinned commit). Histories are replayed on real bridge.ToNNX (outputs vs Linen apply, Variable types, counters, parameter count, '
+          'sharding names) and bridge.ToLinen (outputs vs the NNX module with the same state, collections named after Variable types incl. '
+          'subclasses, state round trip through mutable outputs, chained rng state, partition spec).'),
+    technique='TLA+ state machine of the attribute merge + TLC; spec->code replay with the wrapped module applied directly as second oracle',
+    design_ref='3/C18')
+
 NOT_YET = 'check not built yet in this round (planned, see DESIGN.md section 3); not claimed until its specification is bound to the code'
 ALL = ['C%02d' % i for i in range(1, 21)]
 
